@@ -33,7 +33,9 @@ class TaskAbort(BaseException):
 def _line_cb(code, line):
     s = _ACTIVE
     if s is None:
-        return None
+        # no scheduler is running (single-threaded strata of the same check): switch this location off until the next
+        # Scheduler calls restart_events() -- otherwise every line of urllib3 pays for a callback in every run
+        return sys.monitoring.DISABLE
     t = getattr(_TLS, "task", None)
     if t is None or t.sched is not s:
         return None
@@ -153,6 +155,8 @@ class Scheduler:
             t.thread = threading.Thread(target=self._body, args=(t,), name=f"sim-{t.name}", daemon=True)
             t.thread.start()
         _ACTIVE = self
+        if _MON["installed"]:
+            sys.monitoring.restart_events()  # locations switched off by runs without a scheduler fire again
         try:
             first = self._pick_on_block()
             if first is not None:
